@@ -92,6 +92,8 @@ fn base_case(t: &mut Tape, tapes: &[Vec<u32>], cfg: Cfg, reqs: Vec<Req>) -> Pair
     let chunk_s2c = (0..n2).map(|_| t3.u32()).collect();
     let _ = t;
     PairCase {
+        cap: None,
+        accept_limit: None,
         ccfg: cfg.clone(),
         scfg: cfg,
         client_init_max_send: None,
